@@ -51,7 +51,7 @@ def gen_case(r):
         if c < 15:
             prog.append(("filter", r.below(nrules), di, wrap))
         elif c < 30:
-            prog.append(("get", r.below(nrules), di, wrap, r.coin()))
+            prog.append(("get", r.below(nrules), di, wrap, r.coin(), r.choice([None, None, "dtype", "first", "last", "all"])))
         elif c < 40:
             prog.append(("dataget", r.below(nrules), di))
         elif c < 62:
@@ -89,8 +89,13 @@ class World:
             res = self.rules[ri].condition.filter(self.wrapped[di] if wrap else self.docs[di])
             return ("filter", list(res.result), [exact(x) for x in res.data], list(res.failure_indices))
         if kind == "get":
-            _, ri, di, wrap, rp = op
-            res = self.rules[ri].path.get_data(self.wrapped[di] if wrap else self.docs[di], return_paths=rp)
+            _, ri, di, wrap, rp, mod = op
+            path = self.rules[ri].path
+            if mod == "dtype":
+                path = path.dtype()
+            elif mod and not path.is_concrete:
+                path = getattr(path, mod)()
+            res = path.get_data(self.wrapped[di] if wrap else self.docs[di], return_paths=rp)
             return ("get", exact(res))
         if kind == "dataget":
             _, ri, di = op
